@@ -20,6 +20,7 @@ type fOp struct {
 	Block *gen.Block `json:"block,omitempty"`
 	K     int        `json:"k,omitempty"`
 	Slots []int      `json:"slots,omitempty"`
+	Junk  bool       `json:"junk,omitempty"` // block: the deletion proof carries one surplus trailing hash
 }
 
 type fScenario struct {
@@ -38,6 +39,7 @@ type fGenOpts struct {
 	PartialOps              bool // verify/ingest/prune ops
 	Redo                    bool // an undo may be followed by re-applying the SAME block (same record) before going on
 	Reload                  bool // every instance is now and then replaced by what its own serialization restores
+	JunkProofs              bool // some blocks' deletion proofs carry a surplus trailing hash (accepted by every verifier)
 	ForceEmptyRootOverwrite bool
 }
 
@@ -63,7 +65,11 @@ func genForestScenario(rng *rand.Rand, tag uint64, cfgs []InstCfg, o fGenOpts) f
 		stack = append(stack, m.Clone())
 		gen.ApplyToModel(m, b, tag, &ctr)
 		bb := b
-		s.Ops = append(s.Ops, fOp{Kind: "block", Block: &bb})
+		op := fOp{Kind: "block", Block: &bb}
+		if o.JunkProofs && len(b.Dels) > 0 && rng.Intn(4) == 0 {
+			op.Junk = true
+		}
+		s.Ops = append(s.Ops, op)
 	}
 	for r := 0; r < o.Rounds; r++ {
 		nb := 1 + rng.Intn(6)
@@ -120,7 +126,9 @@ func genForestScenario(rng *rand.Rand, tag uint64, cfgs []InstCfg, o fGenOpts) f
 			if rng.Intn(5) == 0 {
 				k = len(stack)
 			}
-			s.Ops = append(s.Ops, fOp{Kind: "undo", K: k})
+			// Junk on an undo: full map forests are handed the block proofs WITHOUT their hashes
+			// (a full forest rebuilds them from what it stores, as MapPollard.undoDeletion documents)
+			s.Ops = append(s.Ops, fOp{Kind: "undo", K: k, Junk: o.JunkProofs && rng.Intn(2) == 0})
 			states := append(append([]*rm.Model(nil), stack...), m) // states[i] = model before block i; last = current
 			m = stack[len(stack)-k]
 			stack = stack[:len(stack)-k]
@@ -218,6 +226,12 @@ func runForest(c *core.Ctx, s fScenario, setupFail failFn, obs fObserver) *World
 		switch op.Kind {
 		case "block":
 			rec := w.PrepareBlock(*op.Block)
+			if op.Junk && len(rec.DelHashes) > 0 {
+				var junk Hash
+				junk[0], junk[1], junk[31] = 0xEE, byte(oi), 1
+				rec.Proof.Proof = append(cloneHashes(rec.Proof.Proof), junk)
+				c.Count("blocks_whose_proof_carries_a_surplus_hash", 1)
+			}
 			sn := fSnap{before: rec.Before, rec: rec, stump: u.Stump{Roots: cloneHashes(w.Stump.Roots), NumLeaves: w.Stump.NumLeaves}}
 			w.ApplyToStump(rec, fail)
 			for _, in := range w.Insts {
@@ -267,7 +281,12 @@ func runForest(c *core.Ctx, s fScenario, setupFail failFn, obs fObserver) *World
 				snaps = snaps[:len(snaps)-1]
 				rec := sn.rec
 				for _, in := range w.Insts {
-					err := in.U.Undo(uint64(len(rec.Adds)), rec.pr(rec.Proof), rec.hs(rec.DelHashes), rec.hs(rec.PrevRoots))
+					upr := rec.pr(rec.Proof)
+					if op.Junk && in.Cfg.Kind == "mapfull" && len(upr.Proof) > 0 {
+						upr = u.Proof{Targets: cloneU64(rec.Proof.Targets)}
+						c.Count("full_forest_undos_without_proof_hashes", 1)
+					}
+					err := in.U.Undo(uint64(len(rec.Adds)), upr, rec.hs(rec.DelHashes), rec.hs(rec.PrevRoots))
 					if err != nil {
 						fail(in.Cfg.Kind+".Undo", "error-on-honest-undo", "", fmt.Sprintf("%s: %v", in.Name, err))
 						continue
